@@ -194,10 +194,53 @@ def configs(tier):
 
 
 def shards(tier, seed):
-    return [[reg, list(bp), model] for reg, bp in configs(tier) for model in ("gil", "ft")]
+    return [["seq", reg] for reg in REGS[:2]] + [[reg, list(bp), model] for reg, bp in configs(tier) for model in ("gil", "ft")]
+
+
+def run_sequential(reg, tier, rec):
+    """scopes that END: N short-lived threads, one after another, each uses the registry and exits
+    without remove().  A later thread is a different scope even if the OS recycles the thread
+    identifier, so it must never be handed an earlier (dead) thread's Session."""
+    import threading
+
+    n = 40 if tier == "quick" else 200
+    factory = sessionmaker(class_=LogSession)
+    if reg == "threadlocal":
+        S = scoped_session(factory)
+    else:
+        S = scoped_session(factory, scopefunc=lambda: id(threading.current_thread()))
+    got, idents, keep = [], [], []
+    for i in range(n):
+        def body():
+            s1 = S()
+            x = Thing()
+            S.add(x)
+            got.append((s1, S() is s1, x in s1.new, len(s1.new)))
+            idents.append(threading.get_ident())
+        t = threading.Thread(target=body)
+        keep.append(t)  # keep Thread objects alive: scopefunc id() values stay distinct
+        t.start()
+        t.join()
+    rec.transition(n)
+    rec.trace(n)
+    rec.case(("seq", reg), nontrivial=len(set(idents)) < n, n=n)
+    rec.count("recycled_thread_idents_%s" % reg, n - len(set(idents)))
+    rec.state(("seq", reg, len({id(s) for s, *_ in got})))
+    rec.sample(dict(harness="sequential short-lived threads", registry=reg, threads=n, recycled_thread_idents=n - len(set(idents))))
+    problems = []
+    if len({id(s) for s, *_ in got}) != n:
+        problems.append("cross-scope: a later thread was handed the Session of an earlier, finished thread (%d distinct Sessions for %d threads)" % (len({id(s) for s, *_ in got}), n))
+    if any(not same for _, same, _, _ in got):
+        problems.append("same-scope: two calls within one thread returned different Sessions")
+    if any(not has or cnt != 1 for _, _, has, cnt in got):
+        problems.append("proxy: a thread's Session did not hold exactly its own pending object")
+    for p in problems[:1]:
+        rec.violation("%s registry=%s sequential-threads" % (p.split(":")[0], reg), p, dict(seq=True, reg=reg, tier=tier), kind=("seq", reg))
 
 
 def run_shard(shard, tier, rec):
+    if shard[0] == "seq":
+        return run_sequential(shard[1], tier, rec)
     reg, bodies, model = shard
     h = Harness(reg, bodies)
     n = len(bodies)
@@ -221,6 +264,12 @@ def run_shard(shard, tier, rec):
 
 
 def replay(case):
+    if case.get("seq"):
+        from .. import core
+
+        rec = core.Rec(ID)
+        run_sequential(case["reg"], case.get("tier", "quick"), rec)
+        return [(v["sig"], v["detail"]) for v in rec.violations]
     h = Harness(case["reg"], case["bodies"])
     outcome, problems = T.replay_schedule(h, case["model"], case["schedule"])
     return [("%s registry=%s bodies=%s model=%s: %s" % (p.split(":")[0], case["reg"], "+".join(case["bodies"]), case["model"], p), p) for p in problems[:1]]
